@@ -296,11 +296,27 @@ def ref_sanity(model):
 
 
 def corruptions(model):
-    """Yield (kind, on_root, apply_fn) for every single-field corruption."""
+    """Yield (kind, on_root, apply_fn) for every single-field corruption, and for coherent permutations of the node table."""
     nodes = model.nodes
     n = len(nodes)
     for val, nm in ((0, 'version=0'), (bny.VERSION + 1, 'version+1'), (bny.VERSION - 1, 'version-1'), (None, 'version-absent')):
         yield nm, True, (lambda m, val=val: setattr(m, 'version', val))
+    # coherent multi-field corruptions: the node table permuted (two nodes exchange their POSITIONS, every id / parent /
+    # destination field stays as it was, so the table is still a consistent tree when read by id - but id != position)
+    others = [i for i in range(n) if i != model.start_id]
+    for a in range(0, len(others), max(1, len(others) // 6)):
+        for b in (a + 1, len(others) - 1):
+            if 0 <= b < len(others) and others[a] != others[b]:
+                def swap(m, i=others[a], j=others[b]):
+                    m.nodes[i], m.nodes[j] = m.nodes[j], m.nodes[i]
+                yield 'table-permuted', False, swap
+    if n >= 4:
+        def rotate(m):
+            keep = m.nodes[model.start_id]
+            rest = [x for k_, x in enumerate(m.nodes) if k_ != model.start_id]
+            rest = rest[1:] + rest[:1]
+            m.nodes[:] = rest[:model.start_id] + [keep] + rest[model.start_id:]
+        yield 'table-rotated', False, rotate
     for i, nd in enumerate(nodes):
         root = i == model.start_id
         yield 'node-id+1', root, (lambda m, i=i: setattr(m.nodes[i], 'id', m.nodes[i].id + 1))
@@ -439,5 +455,9 @@ def _case(bias=False):
 SUBCHECKS = {
     'static': SubCheck(run_static, strategy=lambda tier: _case(), examples={'quick': 120, 'thorough': 8000}),
     'valid': SubCheck(run_valid, strategy=lambda tier: _case(True), examples={'quick': 300, 'thorough': 15000}),
+    'valid-templated': SubCheck(run_valid, strategy=lambda tier: st.fixed_dictionaries({'schema': G.templated_schema(),
+                                                                                        'style': st.integers(0, 5)}),
+                                examples={'quick': 150, 'thorough': 3000},
+                                note='hand-shaped well-formed families (see C12 schemas-templated): they must compile, load and answer'),
     'corrupt': SubCheck(run_corrupt, strategy=lambda tier: _case(True), examples={'quick': 80, 'thorough': 6000}),
 }
